@@ -56,17 +56,42 @@ class Mismatch(Exception):
 REJECT = (LookupError, error.PyAsn1Error)
 
 
+CURRENT = [None]      # the case object whose step is running (set by run_history)
+
+
+def observable(obj):
+    """What a caller can see of obj without reading members: used to decide "an ill-formed operation changes nothing"
+    model-free (len() of a record with declared components is not part of the dict model, but it may not move either)."""
+    out = []
+    for name, fn in (('len', lambda: len(obj)), ('isValue', lambda: obj.isValue), ('bool', lambda: bool(obj)),
+                     ('pretty', lambda: obj.prettyPrint()), ('eq-int', lambda: obj == 12345)):
+        try:
+            out.append((name, fn()))
+        except Exception as ex:
+            out.append((name, 'raises ' + type(ex).__name__))
+    return out
+
+
 def expect_reject(fn, proto_exc=()):
-    """An operation the model rejects must raise LookupError / PyAsn1Error / the prototype's exception class."""
+    """An operation the model rejects must raise LookupError / PyAsn1Error / the prototype's exception class, and
+    leave the object exactly as it was."""
+    cur = CURRENT[0]
+    before = observable(cur.obj) if cur is not None else None
     try:
         r = fn()
     except REJECT:
-        return
+        r = REJECT
     except proto_exc:
-        return
+        r = REJECT
     except Exception as ex:
         raise Mismatch('ill-formed-op-raised-foreign-exception:' + type(ex).__name__, str(ex))
-    raise Mismatch('ill-formed-op-accepted', repr(r)[:100])
+    if r is not REJECT:
+        raise Mismatch('ill-formed-op-accepted', repr(r)[:100])
+    if before is not None:
+        after = observable(cur.obj)
+        if after != before:
+            diff = [(a[0], a[1], b[1]) for a, b in zip(before, after) if a != b]
+            raise Mismatch('ill-formed-op-changed-the-object', repr(diff)[:300])
 
 
 # ------------------------------------------------------------------ list-like containers
@@ -1053,6 +1078,7 @@ KINDS = ['seqof', 'setof', 'seqof-untyped', 'setof-untyped', 'seq', 'set', 'dyn'
 def run_history(res, kind, hseed, nsteps):
     rng = random.Random(hseed)
     c = make_case(kind)
+    CURRENT[0] = c
     history = []
     feats = {'kind:' + kind}
     case = ('c19', kind, hseed, nsteps)
